@@ -111,7 +111,7 @@ def _install_set_order_model():
             return orig_iter(self)
         items = list(orig_iter(self))
         n = len(items)
-        if 2 <= n <= 4:  # larger sets in pyxform are membership tables (bound, stated)
+        if 2 <= n <= 5:  # larger sets in pyxform are membership tables (bound, stated)
             with NoTracing():
                 space = context_statespace()
                 k = 0
@@ -144,6 +144,22 @@ def _install_set_order_model():
     oi.SetAddInterceptor.trace_op = trace_op
 
 
+def _wrap_module_sets():
+    """S8 (continued): module-level set / frozenset constants of pyxform modules with 2-5
+    elements are re-bound to the list-backed representation, so that a `for x in CONSTANT_SET`
+    in pyxform code is iterated in a solver-chosen order too (membership tests are unaffected)."""
+    from crosshair.simplestructs import LinearSet, ShellMutableSet
+
+    n = 0
+    for name, mod in list(sys.modules.items()):
+        if name == "pyxform" or name.startswith("pyxform."):
+            for k, v in list(vars(mod).items()):
+                if type(v) in (set, frozenset) and 2 <= len(v) <= 5 and all(type(x) in (str, int) for x in v):
+                    setattr(mod, k, ShellMutableSet(LinearSet(sorted(v, key=repr))))
+                    n += 1
+    return n
+
+
 def main(argv):
     modname, key, mode, timeout = argv[0], argv[1], argv[2], float(argv[3])
     per_path = float(argv[4]) if len(argv) > 4 and argv[4] not in ("", "-") else None
@@ -166,6 +182,8 @@ def main(argv):
 
         o = REG[key]
         fn = o.fn
+        if os.environ.get("VF_SETORDER") == "1":
+            out["wrapped_module_sets"] = _wrap_module_sets()
         if mode == "reach":
             fn = _twin(fn)
         engage_auditwall(())
